@@ -165,6 +165,46 @@ Section Progress.
       pose proof (srun_halt_absorb sp 1 K' (s, V, W) res1 W1 Hs) as Ha. cbn [Nat.add] in Ha. congruence.
     - destruct Hs.
   Qed.
+
+  (* quantitative form: with B an upper bound of all ranks, the allocated program needs at most B+1 instructions per source
+     instruction (every run of inserted moves / swaps / labels / jumps between two matched instructions is shorter than B+1) *)
+  Lemma rank_of_le_max rk t : (rank_of rk t <= list_max rk)%nat.
+  Proof.
+    unfold rank_of. destruct (nth_in_or_default t rk O) as [Hin | ->]; [|lia].
+    pose proof (proj1 (list_max_le rk (list_max rk)) (Nat.le_refl _)) as Hall. rewrite Forall_forall in Hall. apply Hall. exact Hin.
+  Qed.
+
+  Lemma terminates_bound sp tp ann rk : check sp tp ann = true -> check_progress tp rk = true ->
+    forall K m cs ct res W', match_conf world ann cs ct -> rank_of rk (tpc ct) = m ->
+      srun K sp cs = Halt res W' ->
+      exists n, (n <= K * S (list_max rk) + m + 1)%nat /\ trun n tp ct = Halt res W'.
+  Proof.
+    intros Hc Hp. set (B := list_max rk). induction K as [K IHK] using lt_wf_ind. induction m as [m IHm] using lt_wf_ind.
+    intros [[s V] W] [[t T] W0] res W' Hm Hrank HK.
+    pose proof Hm as Hm'. destruct Hm' as [<- [E [Hann H]]].
+    pose proof (step_sim2 sp tp ann rk s V t T W (check_pc_of_check sp tp ann t _ Hc Hann)
+                  (rank_pc_of_check tp rk t Hp (ann_lt sp tp ann t _ Hc Hann)) Hm) as Hs.
+    destruct (tstep tp (t, T, W)) as [ct'|res1 W1|] eqn:Hstep; cbn [sim_result2] in Hs.
+    - destruct Hs as [k [cs' [Hk [Hm1 Hor]]]].
+      destruct (srun_next_halt sp k K _ cs' res W' Hk HK) as [Hle HK'].
+      pose proof (rank_of_le_max rk (tpc ct')) as Hb. fold B in Hb.
+      assert (Hex : exists n, (S n <= K * S B + m + 1)%nat /\ trun n tp ct' = Halt res W').
+      { assert (Hbig : (1 <= k)%nat -> exists n, (S n <= K * S B + m + 1)%nat /\ trun n tp ct' = Halt res W').
+        { intros Hk1.
+          destruct (IHK (K - k)%nat ltac:(lia) (rank_of rk (tpc ct')) cs' ct' res W' Hm1 eq_refl HK') as [n [Hn Hr]].
+          exists n. split; [|exact Hr].
+          assert ((K - k) * S B + S B <= K * S B)%nat by (replace K with ((K - k) + k)%nat at 2 by lia; nia). lia. }
+        destruct Hor as [Hk1 | Hlt]; [apply Hbig; exact Hk1|].
+        destruct (Nat.eq_dec k 0) as [-> | Hk0]; [|apply Hbig; lia].
+        rewrite Nat.sub_0_r in HK'. cbn in Hrank. subst m.
+        destruct (IHm (rank_of rk (tpc ct')) Hlt cs' ct' res W' Hm1 eq_refl HK') as [n [Hn Hr]].
+        exists n. split; [lia|exact Hr]. }
+      destruct Hex as [n [Hn Hr]]. exists (S n). split; [exact Hn|]. cbn [RaIRModel.trun]. rewrite Hstep. exact Hr.
+    - exists 1%nat. split; [lia|]. cbn [RaIRModel.trun]. rewrite Hstep.
+      destruct K as [|K']; [discriminate|].
+      pose proof (srun_halt_absorb sp 1 K' (s, V, W) res1 W1 Hs) as Ha. cbn [Nat.add] in Ha. congruence.
+    - destruct Hs.
+  Qed.
 End Progress.
 
 Theorem validate_full_terminates sp tp hs : validate_full sp tp hs = true ->
@@ -183,3 +223,22 @@ Qed.
 
 Theorem validate_full_sound sp tp hs : validate_full sp tp hs = true -> validate sp tp hs = true.
 Proof. unfold validate_full. intros H. apply andb_true_iff in H. tauto. Qed.
+
+(* bounded slowdown: if the source returns within K instructions, the allocated program returns the same within
+   (K+1) * (B+1) instructions, B = the largest progress rank of the allocated program *)
+Theorem validate_full_steps_bounded sp tp hs : validate_full sp tp hs = true ->
+  forall (world : Type) (sem : opcode -> list Z -> world -> list Z * world)
+         (semc : opcode -> list Z -> world -> bool) V0 T0 W K res W',
+    srun world sem semc K sp (O, V0, W) = Halt res W' ->
+    exists n, (n <= (K + 1) * (list_max (infer_ranks tp) + 1))%nat /\ trun world sem semc n tp (O, T0, W) = Halt res W'.
+Proof.
+  intros H world sem semc V0 T0 W K res W' HK.
+  unfold validate_full in H. apply andb_true_iff in H. destruct H as [Hv Hp]. unfold validate in Hv.
+  assert (He : check_entry (infer sp tp hs) = true).
+  { unfold check in Hv. apply andb_true_iff in Hv. destruct Hv as [Hv _]. apply andb_true_iff in Hv. tauto. }
+  destruct (terminates_bound world sem semc sp tp (infer sp tp hs) (infer_ranks tp) Hv Hp K _ (O, V0, W) (O, T0, W) res W'
+              (init_match world (infer sp tp hs) V0 T0 W He) eq_refl HK) as [n [Hn Hr]].
+  exists n. split; [|exact Hr].
+  pose proof (rank_of_le_max (infer_ranks tp) (tpc world (O, T0, W))) as Hb. nia.
+Qed.
+
